@@ -37,6 +37,11 @@ def replay(col, case):
     col.count(1)
     if got is not None and (got.shape != (n, 3) or not np.array_equal(got, exp)):
         col.violation("quantile_score-wrong-value", dict(rep, expected=exp.tolist(), observed=np.asarray(got).tolist()))
+    # integer-typed estimates and observations are values like any other
+    got = call("quantile_score", scores.quantile_score, y_tau.astype(int), obs.astype(int), taus)
+    col.count(1)
+    if got is not None and (np.shape(got) != (n, 3) or not np.array_equal(np.asarray(got, dtype=float), exp)):
+        col.violation("quantile_score-wrong-value-int-input", dict(rep, expected=exp.tolist(), observed=np.asarray(got).tolist()))
     for shape_name, yt, yo in (("n", est.copy(), obs.copy()), ("n1", est.reshape(n, 1), obs.reshape(n, 1)),
                                ("n-vs-n1", est.copy(), obs.reshape(n, 1))):
         got = call("quantile_score", scores.quantile_score, yt, yo, taus[1:2])
